@@ -90,14 +90,32 @@ def pipe_ios(em_a, em_b):
     return io_a, io_b
 
 
+_LISTENER = None
+_LISTENER_LOCK = threading.Lock()
+
+
 def tcp_socks():
-    srv = socket.socket(socket.AF_INET, socket.SOCK_STREAM)
-    srv.bind(("127.0.0.1", 0))
-    srv.listen(1)
-    c = socket.socket(socket.AF_INET, socket.SOCK_STREAM)
-    c.connect(srv.getsockname())
-    s, _ = srv.accept()
-    srv.close()
+    """a connected (client, server) TCP pair over loopback.  One listening socket per process is
+    reused: thousands of short connections would otherwise exhaust ports through TIME_WAIT."""
+    global _LISTENER
+    with _LISTENER_LOCK:
+        if _LISTENER is None:
+            srv = socket.socket(socket.AF_INET, socket.SOCK_STREAM)
+            srv.setsockopt(socket.SOL_SOCKET, socket.SO_REUSEADDR, 1)
+            srv.bind(("127.0.0.1", 0))
+            srv.listen(16)
+            _LISTENER = srv
+        for attempt in range(50):
+            c = socket.socket(socket.AF_INET, socket.SOCK_STREAM)
+            try:
+                c.connect(_LISTENER.getsockname())
+                break
+            except OSError:
+                c.close()
+                time.sleep(0.1)
+        else:
+            raise OSError("could not connect to the loopback listener")
+        s, _ = _LISTENER.accept()
     return c, s
 
 
